@@ -130,6 +130,15 @@ func (h *Session) findOrCreateHostWithLock(addr Addr) (host *Host, found bool) {
 	h.mutex.Lock()
 	defer h.mutex.Unlock()
 
+	// look again: another goroutine may have created or replaced the host between the two locks
+	if host, found = h.HostTable.Table[addr.IP]; found && bytes.Equal(host.MACEntry.MAC, addr.MAC) {
+		host.MACEntry.Row.Lock()
+		host.LastSeen = now
+		host.MACEntry.LastSeen = now
+		host.MACEntry.Row.Unlock()
+		return host, true
+	}
+
 	// if host exist in table but has different mac address,
 	// we need to remove the existing link host->mac and create a fresh link.
 	if host != nil {
